@@ -10,7 +10,11 @@ static rc::Gen<uint64_t> genDeclared() {
     return rc::gen::oneOf(
         rc::gen::element<uint64_t>(0, 32, 33, 1, 16, 31, 64, ((uint64_t)1 << 29) - 1, (uint64_t)1 << 29, ((uint64_t)1 << 29) + 5, ((uint64_t)1 << 32), (uint64_t)SIZE_MAX, (uint64_t)SIZE_MAX / 8),
         rc::gen::map(inRangeFull(1, 65), [](int v) { return (uint64_t)v; }),
-        rc::gen::map(inRangeFull(1, 5000), [](int v) { return (uint64_t)v; }));
+        rc::gen::map(inRangeFull(1, 5000), [](int v) { return (uint64_t)v; }),
+        // above 2^32 with small low halves (a 32-bit truncation would turn these into short declared lengths), and anything at all
+        rc::gen::map(rc::gen::tuple(inRangeFull(1, 1 << 20), rc::gen::element<uint64_t>(0, 1, 16, 32, 33, 64, 100, ((uint64_t)1 << 29) - 1, (uint64_t)1 << 29, 0xffffffffULL)),
+                     [](std::tuple<int, uint64_t> t) { return ((uint64_t)std::get<0>(t) << 32) | std::get<1>(t); }),
+        rc::gen::map(rc::gen::arbitrary<uint64_t>(), [](uint64_t v) { return v | ((uint64_t)1 << 29); }));
 }
 static rc::Gen<std::string> genName() {
     auto ch = rc::gen::weightedOneOf<char>({{8, rc::gen::map(inRangeFull(0x20, 0x7f), [](int v) { return (char)v; })},
